@@ -9,9 +9,9 @@ TECH = {
  "C04": "Hypothesis generation of same-dimension unit triples and magnitudes vs closed-form factor oracle; round-trip and via-intermediate metamorphic relations; cross-dimension rejection",
  "C05": "complete enumeration of temperature/logarithmic unit pairs x Hypothesis-drawn magnitudes vs formulas written from the definitions; inverse round-trip; level-sum identity",
  "C06": "Hypothesis generation of operand pairs/operators/exponents vs base-dimension arithmetic oracle from an independent unit-table reference",
- "C07": "Hypothesis histories (operation + follow-up in-place calls) with before/after operand snapshots (aliasing/mutation invariant)",
+ "C07": "Hypothesis histories (operation incl. aliased/derived operands and augmented assignments + follow-up in-place calls) with before/after operand snapshots (aliasing/mutation invariant)",
  "C08": "Hypothesis generation of magnitudes with/without uncertainty vs per-clause closed-form propagation oracle",
- "C09": "Hypothesis stateful op-sequence generation (open/close/raise/DIP parse with failing registrations) vs a stack-of-symbol-sets model of the global unit tables",
+ "C09": "Hypothesis stateful op-sequence generation (open/close in and out of LIFO order/raise/DIP parse with failing registrations/solver use) vs a stack-of-symbol-sets model of the global unit tables",
  "C10": "Hypothesis grammar-based formula generation vs independent Counter expansion and per-species data from the isotope table",
  "C11": "Hypothesis generation of mixtures vs closed-form fraction oracle; scaling and number<->mass round-trip metamorphic relations",
  "C12": "Hypothesis generation of composites with densities/volumes in random units vs closed-form relations; unit-change metamorphic relation",
@@ -24,6 +24,9 @@ TECH = {
  "C19": "Hypothesis generation of environments exported through every back-end and read back by that format's own loader/interpreter/compiler (round-trip differential)",
  "C20": "Hypothesis model-based operation histories vs dict/list/row models; complete enumeration of small grid sizes; nested-loop product oracle",
 }
+FUZZED = {"C01", "C03", "C10", "C13", "C15", "C16", "C17", "C18"}
+FUZZ_NOTE = ("; plus coverage-guided units (atheris/libFuzzer mutating Hypothesis' choice sequence through fuzz_one_input, "
+             "same strategy and oracle, branch coverage of scinumtools as feedback)")
 NOT_APPLICABLE = {}
 NA_FILE = os.path.join(V, "tools", "not_applicable.json")
 if os.path.exists(NA_FILE):
@@ -45,7 +48,7 @@ for p in props:
                               "text": "Generated-input search against an explicit oracle; finite sub-domains enumerated completely where stated in the evidence rule. Establishes that no violation exists among the cases explored (counts and class histogram in the evidence), never absence.",
                               "design_ref": f"DESIGN.md §3 {i}"},
             "level_note": "Trusted: Hypothesis 6.168, CPython/numpy primitives, the reference model in sv/ (written from the property text and the docs, not from the code under test). Known findings listed in known_findings.json are excluded by input+behaviour predicates.",
-            "technique": TECH[i],
+            "technique": TECH[i] + (FUZZ_NOTE if i in FUZZED else ""),
         })
     else:
         na.append({"property_id": i, "reason": NOT_APPLICABLE.get(i, "check not built yet in this round (planned, see DESIGN.md §3)")})
@@ -56,7 +59,7 @@ man = {
            "baseline_off_cmd": "cd /repo && /venv/bin/python -m pytest -ra -q -p no:cacheprovider --timeout=900 --continue-on-collection-errors",
            "source_commits": [], "add_only": True},
  "engines": [{"name": "sv", "path": "/verif/sv", "serves_properties": [c["property_id"] for c in checks],
-              "kind_free_text": "Hypothesis-driven property-based testing harness (16-way sharded), corpus replay tier, known-findings matching"}],
+              "kind_free_text": "Hypothesis-driven property-based testing harness (8/16-way sharded), coverage-guided units via atheris (sv/fuzz.py), corpus replay tier, known-findings matching"}],
  "checks": checks,
  "not_applicable": na,
  "notes": "See DESIGN.md. ./check <ID> --tier quick|thorough; ./check <ID> --replay FILE. Exit 0/1/2 = held / violation / harness error.",
